@@ -147,9 +147,10 @@ func (r *rewriter) rewriteFile(f *loader.File, printer FilePrinter) {
 	parseOrImport := func(fset *token.FileSet, f *ast.File) (coName, seqName string) {
 		coName = imports.ImportName(f, pkgCoPath, pkgCoName)
 		assert(coName != "") // coPkg != nil
-		seqName = imports.ImportName(f, pkgSeqPath, pkgSeqName)
-		if seqName == "" {
-			seqName = importSeqName
+		// always under the name of our own: an import of seq written by the user
+		// can be shadowed (or blank) where the generated code refers to the pkg
+		seqName = importSeqName
+		if imports.ImportName(f, pkgSeqPath, pkgSeqName) != importSeqName {
 			astutil.AddNamedImport(fset, f, importSeqName, pkgSeqPath)
 		}
 		return
